@@ -61,6 +61,7 @@ def main():
                           f'unrealizable peptides {j["spurious"][:6]} (output={j["n_out"]})', CC.case_to_replay(case))
         return bool(j['n_out'])
     CC.run_blocks(run, 'C02', on_case)
+    crashes = {}
 
     # ---- binding limits ---------------------------------------------------------------------
     if not run.only or any(o.startswith('LIMIT') for o in run.only):
@@ -77,7 +78,7 @@ def main():
                     nt = 0
                     for c, r, r0, j in zip(cases, res, unl_res, verdicts):
                         if not r['ok']:
-                            run.violation(f'{c.key()}|limit-crash', f'raised under limits: {r["exc"]}', CC.case_to_replay(c))
+                            crashes[r['exc'][:80]] = crashes.get(r['exc'][:80], 0) + 1      # see LIMITFUS below
                             continue
                         out = set(r['peptides'] or {})
                         nt += 1 if out else 0
@@ -91,6 +92,61 @@ def main():
                                               f'limited run (mv={mv}, av={av}) reports peptides the unlimited run does not: {sorted(extra)[:6]}',
                                               CC.case_to_replay(c))
                     run.block(name, len(cases), nt, True, deviations='4-5', max_variants_per_node=mv, additional_variants_per_misc=av)
+
+    # ---- binding limits across a fusion junction ------------------------------------------------
+    # donor variants in the last codons before the breakpoint + an accepter variant just after it: routes that span
+    # the junction are the ones skipped when --max-variants-per-node binds (skipping must not leave fragments)
+    if not run.only or any(o.startswith('LIMITFUS') for o in run.only):
+        ref = panel.get('R7')
+        allf = CC.fusion_cases('R7', 'ENST0A1', 'ENST0B1', 1, E.Cfg(exception=None))
+        bps = sorted({f.fusions[0].donor_pos for f in allf})
+        nf = 3 if run.tier == 'quick' else 8
+        chosen = []
+        for k in range(1, nf + 1):
+            bp = bps[len(bps) * k // (nf + 1)]
+            fz = [f.fusions[0] for f in allf if f.fusions[0].donor_pos == bp]
+            chosen.append(fz[(len(fz) * k) // (nf + 1)])
+        sets = []
+        for f in chosen:
+            dtx, atx = f.donor_tx, f.acc_tx
+            dlast = ref.gene_to_tx(dtx, f.donor_pos - 1)
+            afirst = ref.gene_to_tx(atx, f.acc_pos)
+            dv = [E.small_alphabet(ref, dtx, p, reduced=True)[0] for p in range(max(0, dlast - 8), dlast + 1)]
+            av_ = [E.small_alphabet(ref, atx, q, reduced=True)[0] for q in range(afirst, min(afirst + 9, ref.tx_len(atx)))]
+            for d in dv:
+                for a in av_:
+                    sets.append((f, (d, a)))
+            for i, d1 in enumerate(dv):
+                for d2 in dv[i + 1:i + 6]:
+                    for a in av_[::2]:
+                        sets.append((f, (d1, d2, a)))
+        unl = [E.Case('R7', fusions=(f,), small=vs, cfg=E.Cfg(exception=None)) for f, vs in sets]
+        unl_res, _, _ = E.run_block('LIMITFUS/R7/unlimited', unl, jobs=run.jobs)
+        for mv, av in ((1, 0), (1, 1), (2, 0), (2, 2)):
+            cases = [E.Case('R7', fusions=(f,), small=vs, cfg=E.Cfg(exception=None, mvpn=(mv,), avpm=(av,))) for f, vs in sets]
+            name = f'LIMITFUS/R7/mv{mv}-av{av}'
+            res, _, _ = E.run_block(name, cases, jobs=run.jobs)
+            verdicts = vlib.pmap(CC.judge, list(zip(cases, res)), jobs=run.jobs)
+            nt = 0
+            for c, r, r0, j in zip(cases, res, unl_res, verdicts):
+                if not r['ok']:
+                    # a run that raises under binding limits writes no FASTA, so it reports nothing unrealizable: outside
+                    # what C02 states (and C01 only speaks about non-binding limits); counted, not reported
+                    crashes[r['exc'][:80]] = crashes.get(r['exc'][:80], 0) + 1
+                    continue
+                out = set(r['peptides'] or {})
+                nt += 1 if out else 0
+                if j['spurious']:
+                    run.violation(f'{c.key()}|spurious:{",".join(j["spurious"][:3])}',
+                                  f'unrealizable under limits mv={mv} av={av}: {j["spurious"][:6]}', CC.case_to_replay(c))
+                if r0['ok']:
+                    extra = out - set(r0['peptides'] or {})
+                    if extra:
+                        run.violation(f'{c.key()}|limit-invents:{",".join(sorted(extra)[:3])}',
+                                      f'limited run (mv={mv}, av={av}) reports peptides the unlimited run does not: {sorted(extra)[:6]}',
+                                      CC.case_to_replay(c))
+            run.block(name, len(cases), nt, True, deviations='3-4', fusions=len(chosen), max_variants_per_node=mv,
+                      additional_variants_per_misc=av)
 
     # ---- injected timeouts ------------------------------------------------------------------
     if not run.only or any(o.startswith('TIMEOUT') for o in run.only):
@@ -144,6 +200,7 @@ def main():
         if hit == 0:
             raise RuntimeError('timeout interposition point was never hit')
         run.block('TIMEOUT/R1', len(jobs), nt, True, timeouts='0..3', limit_lists=len(lists))
+    run.extra['observations_outside_property'] = dict(runs_that_raise_under_binding_limits=crashes)
     run.finish()
 
 
